@@ -749,7 +749,7 @@ func c08Ingest(c *Ctx) int {
 	var jobs []ingestJob
 	for _, mt := range []string{"", "segtimeline_1", "segtimelinenr_1"} {
 		for _, ll := range []string{"", "ato_1,chunkdur_1", "chunkdur_2", "ato_1.5,chunkdur_0.5"} {
-			for _, ex := range []string{"", "timesubsstpp_en", "timesubswvtt_en,sv", "scte35_1", "eccp_cenc", "periods_60", "snr_5", "tsbd_4", "start_90", "ltgt_2500"} {
+			for _, ex := range []string{"", "timesubsstpp_en", "timesubswvtt_en,sv", "scte35_1", "eccp_cenc", "periods_60", "snr_5", "tsbd_4", "start_90", "ltgt_2500", "statuscode_[{cycle:4;rsq:0;code:404}]", "traffic_u3d2", "scte35_2"} {
 				var parts []string
 				for _, x := range []string{mt, ll, ex} {
 					if x != "" {
@@ -768,7 +768,8 @@ func c08Ingest(c *Ctx) int {
 	if !c.Thorough() {
 		// a fixed part (the combinations that have failed before) plus a sample
 		keep := []ingestJob{{"testpic_2s", "ato_1,chunkdur_1,timesubsstpp_en", "ok", "ss", 100300}, {"testpic_2s", "chunkdur_2", "late503", "sss", 100300},
-			{"testpic_2s", "segtimeline_1,ato_1,chunkdur_1", "early401", "sss", 100300}, {"testpic_2s", "chunkdur_2", "unreachable", "ss", 100300}}
+			{"testpic_2s", "segtimeline_1,ato_1,chunkdur_1", "early401", "sss", 100300}, {"testpic_2s", "chunkdur_2", "unreachable", "ss", 100300},
+			{"testpic_2s", "statuscode_[{cycle:4;rsq:0;code:404}]", "ok", "sss", 10000}, {"testpic_2s", "chunkdur_2,statuscode_[{cycle:4;rsq:0;code:503}]", "ok", "sss", 10000}}
 		for i := 0; i < 8; i++ {
 			keep = append(keep, jobs[r.Intn(len(jobs))])
 		}
